@@ -18,7 +18,7 @@ import itertools
 
 from ..model import (AnalysisError, record_classes, record_table, class_const,
                      unparse, walk_no_nested)
-from ..tables import Abs, eval_function
+from ..tables import Abs, eval_function, Unsupported
 from ..linehooks import LineHooks
 from .refgraph import SeqHooks
 from .common import is_library_error
@@ -167,6 +167,47 @@ def run(ctx):
                           "rename,new=%s,identifier=%s" % (newname, taken),
                           "outcome %r, steps %r; expected %s" % (
                               out[0:2], evs, want))
+    # assignment through the class-level accessor of a field (line.name =
+    # ..., line.sid = ...) takes the same path, whether or not the field
+    # currently holds a value (it may have been cleared with None) and at
+    # every validation level
+    f_dfa = ctx.anchor("Line._define_field_accessors",
+                       Line.find_method("_define_field_accessors"))
+    setters = [n for n in ast.walk(f_dfa.node)
+               if isinstance(n, ast.FunctionDef) and n.name == "set_method"]
+    if len(setters) != 1 or f_dfa.nested.get("set_method") is None:
+        raise AnalysisError("anchor vanished: the set_method closure of "
+                            "_define_field_accessors")
+    f_setm = f_dfa.nested["set_method"]
+    for stored, vl in itertools.product((True, False), (0, 1, 3)):
+        ctx.instance(R)
+        data = {"name": "A"} if stored else {}
+        ln = Abs(seg1, label="line", vlevel=vl, _data=data, _datatype={},
+                 _virtual=False, virtual=False,
+                 _gfa=Abs(gfacls, label="gfa"))
+
+        class AH(SeqHooks):
+            def before_inline(self, ev, func, args, kwargs):
+                if func.name == "_define_field_methods":
+                    return None
+                return super().before_inline(ev, func, args, kwargs)
+        try:
+            out = eval_function(repo, f_setm, [ln, "B", "name"],
+                                hooks=AH(repo, ["_set_existing_field"]))
+        except Unsupported as e:
+            raise AnalysisError(str(e))
+        evs = [e for e in out[2] if e[0] == "_set_existing_field"]
+        ok = out[0] == "return" and len(evs) == 1 and \
+            evs[0][1:3] == ("name", "B")
+        ctx.oblige(ok)
+        if not ok:
+            ctx.violation(R, f_setm.short,
+                          "accessor assignment,field %s,vlevel=%d" % (
+                              "stored" if stored else "cleared", vl),
+                          "outcome %r; _set_existing_field calls %r: the "
+                          "assignment must go through the rename path "
+                          "(duplicate search, unregister, register)" % (
+                              out[0:2], evs))
     ctx.instance(R)
     w = writers_of_records(repo)
     okset = {"gfa.Gfa.__init__", "lines.creators.Creators._register_line",
